@@ -124,8 +124,12 @@ func ruleC04Seq(r *Run) {
 						base = canon(fa.X)
 					}
 				}
-				alts, why := e.at(f, st, st.Val)
 				construct := fmt.Sprintf("%s:store %s#%d", FuncName(f), fname, i+1)
+				if constructionCopy(st) {
+					r.Check(rule, construct, w.InstrPos(st), true, "a new object is initialised with the list of the object it copies (field-wise struct copy)")
+					continue
+				}
+				alts, why := e.at(f, st, st.Val)
 				if why != "" {
 					r.Undecided(rule, construct, w.InstrPos(st), why)
 					continue
@@ -623,6 +627,9 @@ func c05Limit(r *Run, onlyRoute bool) {
 	for _, fd := range fields {
 		for _, f := range w.Funcs {
 			for i, st := range storesToField(f, fd.fv) {
+				if constructionCopy(st) {
+					continue // a new object takes over the list of the object it copies: nothing grows
+				}
 				alts, why := e.at(f, st, st.Val)
 				construct := fmt.Sprintf("%s:grow %s#%d", FuncName(f), fd.name, i+1)
 				if why != "" || len(alts) == 0 {
